@@ -49,6 +49,25 @@ def run(tier, seed):
         oa, ob = gen.gen_events(rng, shape)
         log.add("same", "onset.evaluate", call(me.onset.evaluate, oa, ob, window=0.125), call(me.onset.evaluate, oa + d, ob + d, window=0.125),
                 {"what": "shift", "d": d, "ref": oa.tolist(), "est": ob.tolist()})
+        # annotations anchored at the time origin itself (t = 0 is a time like any other)
+        z_ref = np.array(rng.choice([[0.0], [0.0, 0.0], [0.0, 1.5]]))
+        z_est = np.array(rng.choice([[0.0], [0.03125, 1.0], [0.0, 0.0625], [0.0, 0.0]]))
+        for fn_name, fn in (("onset.f_measure", me.onset.f_measure), ("onset.evaluate", me.onset.evaluate)):
+            for a_, b_ in ((z_ref, z_est), (z_est, z_ref)):
+                log.add("same", fn_name, call(fn, a_, b_), call(fn, a_ + d, b_ + d), {"what": "shift", "d": d, "ref": a_.tolist(), "est": b_.tolist(),
+                                                                                       "family": "anchored at 0"})
+        z_iv = np.array([[0.0, 0.5]])
+        z_iv2 = np.array(rng.choice([[[0.0, 0.5]], [[0.0, 0.4375], [1.0, 2.0]]]))
+        zp, zp2 = np.array([440.0]), np.full(len(z_iv2), 440.0)
+        log.add("same", "transcription.evaluate", call(tr.evaluate, z_iv, zp, z_iv2, zp2), call(tr.evaluate, z_iv + d, zp, z_iv2 + d, zp2),
+                {"what": "shift", "d": d, "ref": z_iv.tolist(), "est": z_iv2.tolist(), "family": "anchored at 0"})
+        z_t = np.array([0.0])
+        z_f = [np.array([440.0, 660.0])]
+        log.add("same", "multipitch.evaluate", call(mp.evaluate, z_t, z_f, z_t, z_f), call(mp.evaluate, z_t + d, z_f, z_t + d, z_f),
+                {"what": "shift", "d": d, "ref_times": [0.0], "est_times": [0.0], "family": "anchored at 0"})
+        z_al, z_al2 = np.array([0.0, 1.0]), np.array(rng.choice([[0.0, 1.0], [0.0, 0.0], [0.25, 1.0]]))
+        log.add("same", "alignment.evaluate", call(al.evaluate, z_al, z_al2), call(al.evaluate, z_al + d, z_al2 + d),
+                {"what": "shift", "d": d, "ref": z_al.tolist(), "est": z_al2.tolist(), "family": "anchored at 0"})
         nri, nrp, nrv, nei, nep, nev = gen.gen_notes(rng, rng.choice(["random", "random", "duplicates"]), velocity=True)
         for kw in ({}, {"onset_tolerance": 0.125, "strict": True}):
             log.add("same", "transcription.evaluate", call(tr.evaluate, nri, nrp, nei, nep, **kw), call(tr.evaluate, nri + d, nrp, nei + d, nep, **kw),
@@ -95,6 +114,19 @@ def run(tier, seed):
             return out
         log.add("same", "multipitch.metrics", call(mp.metrics, mt, mrf, met, mef, window=0.74), call(mp.metrics, mt, shuf(mrf), met, shuf(mef), window=0.74),
                 {"what": "permute frequencies inside frames", "ref": [x.tolist() for x in mrf], "est": [x.tolist() for x in mef]})
+        # chains of pitches a semitone apart against the same chain a quarter tone lower: every estimate has two candidate
+        # references, so only an order-independent (maximum) matching scores all of them - in every listing order
+        nfr = rng.randint(1, 3)
+        crf, cef = [], []
+        for _ in range(nfr):
+            u0, ln = rng.randint(-20, 20), rng.randint(2, 4)
+            crf.append(np.array([440.0 * 2 ** ((u0 + 2 * i) / 24.0) for i in range(ln)]))
+            cef.append(np.array([440.0 * 2 ** ((u0 + 2 * i + rng.choice([-1, -1, 1])) / 24.0) for i in range(ln)]))
+        ct = np.arange(nfr) * 0.25
+        base = call(mp.metrics, ct, crf, ct, cef, window=0.74)
+        for variant in (lambda fr: [f[::-1].copy() for f in fr], shuf):
+            log.add("same", "multipitch.metrics", base, call(mp.metrics, ct, variant(crf), ct, variant(cef), window=0.74),
+                    {"what": "permute frequencies inside frames", "family": "chains", "ref": [x.tolist() for x in crf], "est": [x.tolist() for x in cef]})
         tref, tw, test = gen.gen_tempo(rng, rng.choice(["random", "random", "single"]))
         for tol in (0.08, 0.0625, 0.125):
             log.add("same", "tempo.detection", call(me.tempo.detection, tref, tw, test, tol=tol), call(me.tempo.detection, tref, tw, test[::-1].copy(), tol=tol),
